@@ -395,7 +395,7 @@ func boundaries() []boundary {
 			}
 		}
 		return ws
-	}, false, false})
+	}, false, true})
 	// node counts around 65535 (one long unary word): thorough only
 	for _, k := range []int{65534, 65535, 65536} {
 		k := k
@@ -481,7 +481,7 @@ func run(c *engine.Ctx) {
 	}
 
 	// 4. seeded
-	nSets := c.Pick(5000, 20000)
+	nSets := c.Pick(5000, 16000)
 	perUnit := 40
 	for un := 0; un*perUnit < nSets; un++ {
 		un := un
